@@ -205,6 +205,23 @@ def run(tier):
         d = {im["trait"]: im["derived"] for im in F.impls if im.get("adt") == ty and im.get("trait") in ("std::cmp::PartialEq", "std::hash::Hash", "std::cmp::Eq")}
         rep.check(d.get("std::cmp::PartialEq") is True and d.get("std::hash::Hash") is True, "derived-eq-hash", short(ty),
                   "PartialEq and Hash are not both derived: equal nodes may hash differently", detail=d)
+    # every type of the two crates that can be hashed (and so can sit inside a node that is used as a mapping key - Tag, ScalarStyle ...)
+    # derives both or neither of PartialEq / Hash; the only hand-written pairs are the marked node types, checked field by field below
+    by = {}
+    for im in F.impls:
+        if im.get("trait") in ("std::hash::Hash", "std::cmp::PartialEq") and (im.get("adt") or "").startswith(("saphyr::", "saphyr_parser::")):
+            by.setdefault(im["adt"], {})[im["trait"]] = im["derived"]
+    nh = 0
+    for adt, d in sorted(by.items()):
+        if "std::hash::Hash" not in d:
+            continue
+        nh += 1
+        if adt.endswith(("::MarkedYaml", "::MarkedYamlOwned")):
+            continue
+        rep.check(d.get("std::hash::Hash") is True and d.get("std::cmp::PartialEq") is True, "derived-eq-hash", short(adt),
+                  "a hashable type has a hand-written PartialEq or Hash (the other one derived): values that compare equal can hash differently, and "
+                  "nodes containing them miss in mapping lookups", detail=d)
+    rep.floor("hashable types of the two crates", nh, 8)
     # the marked node types implement Eq and Hash by hand: both must consult the same thing (the `data` field, whose type derives both)
     from . import C19
     C19.span_blind(rep, F, "eq-hash-same-fields")
